@@ -12,4 +12,5 @@ flock 9
 } > _CoqProject.new
 if ! cmp -s _CoqProject.new _CoqProject 2>/dev/null; then mv _CoqProject.new _CoqProject; coq_makefile -f _CoqProject -o Makefile >/dev/null; else rm _CoqProject.new; fi
 [ -f Makefile ] || coq_makefile -f _CoqProject -o Makefile >/dev/null
-exec timeout ${BUILD_TIMEOUT:-1800} make -j${BUILD_JOBS:-16} "$@"
+# every coqc call gets its own wall-clock limit so one diverging file cannot hold the whole build
+exec timeout ${BUILD_TIMEOUT:-1800} make -j${BUILD_JOBS:-16} COQC="timeout ${COQC_TIMEOUT:-600} coqc" "$@"
